@@ -46,6 +46,7 @@ type KVal struct {
 }
 
 type Dlg struct {
+	OptPerm int `json:"opt_perm,omitempty"` // != 0: the options are handed to the constructor in another order (a permutation derived from this number)
 	Iss     KeyRef     `json:"iss"`
 	Aud     KeyRef     `json:"aud"`
 	Sub     string     `json:"sub"` // none | iss | other
@@ -61,6 +62,7 @@ type Dlg struct {
 }
 
 type Inv struct {
+	OptPerm int `json:"opt_perm,omitempty"`
 	Iss        KeyRef    `json:"iss"`
 	Sub        KeyRef    `json:"sub"`
 	Aud        *KeyRef   `json:"aud,omitempty"`
@@ -149,6 +151,20 @@ func (k KVal) arg() any {
 func (ts TimeSpec) dur() time.Duration { return time.Duration(ts.V) * time.Second }
 func (ts TimeSpec) abs() time.Time     { return time.Unix(ts.V, ts.Ns) }
 
+// permute reorders options: the options of one constructor call set different things (the descriptors never
+// give one key twice), so their order is not part of the meaning.
+func permute[T any](opts []T, seed int) {
+	if seed == 0 {
+		return
+	}
+	x := uint64(seed)*6364136223846793005 + 1442695040888963407
+	for i := len(opts) - 1; i > 0; i-- {
+		x = x*6364136223846793005 + 1442695040888963407
+		j := int((x >> 33) % uint64(i+1))
+		opts[i], opts[j] = opts[j], opts[i]
+	}
+}
+
 // BuildDlg runs the delegation constructor.
 func BuildDlg(d Dlg) (*delegation.Token, error) {
 	cmd, err := command.Parse(d.Cmd)
@@ -182,6 +198,7 @@ func BuildDlg(d Dlg) (*delegation.Token, error) {
 	}
 	iss, aud := d.Iss.Key().DID, d.Aud.Key().DID
 	if d.UseRoot {
+		permute(opts, d.OptPerm)
 		return delegation.Root(iss, aud, cmd, p, opts...)
 	}
 	switch d.Sub {
@@ -190,6 +207,7 @@ func BuildDlg(d Dlg) (*delegation.Token, error) {
 	case "other":
 		opts = append(opts, delegation.WithSubject(d.SubKey.Key().DID))
 	}
+	permute(opts, d.OptPerm)
 	return delegation.New(iss, aud, cmd, p, opts...)
 }
 
@@ -248,6 +266,7 @@ func BuildInv(iv Inv) (*invocation.Token, error) {
 	for _, s := range iv.Prf {
 		prf = append(prf, val.CidOf(s))
 	}
+	permute(opts, iv.OptPerm)
 	return invocation.New(iv.Iss.Key().DID, iv.Sub.Key().DID, cmd, prf, opts...)
 }
 
